@@ -67,3 +67,44 @@ def failed_step_keeps_classes(n_good: int, bad: int, as_component: bool) -> bool
     if failed and "/components/schemas/Bad" in out.classes_by_reference:
         return False
     return True
+
+
+# ---------------------------------------------------------------------------- victims of a failing model
+def _perm(items, p):
+    items = list(items)
+    out = []
+    for i in range(len(items), 0, -1):
+        out.append(items.pop(p % i))
+        p //= i
+    return out
+
+
+SHARED = {"type": "object", "properties": {"s": {"type": "string"}}}
+LATE = {"type": "object", "properties": {"uses": {"$ref": "#/components/schemas/Shared"}, "n": {"type": "integer"}}}
+LATE_LIST = {"type": "object", "properties": {"many": {"type": "array", "items": {"$ref": "#/components/schemas/Shared"}}}}
+BAD_PIECES = ({"type": "array"}, {"$ref": "#/components/schemas/Missing"}, {"type": "integer", "default": "zz"})
+
+
+def only_the_failing_model_is_removed(order: int, bad_first: bool, bad_kind: int, late_kind: bool) -> bool:
+    """
+    A failing model takes only itself (and its dependants) out: a healthy model that merely references the same
+    shared schema survives, whatever the declaration order and wherever the bad piece sits inside the failing model.
+    pre: 0 <= order < 6 and 0 <= bad_kind < 3
+    post: _
+    """
+    bad_piece = _pick(BAD_PIECES, bad_kind)
+    good_ref = {"$ref": "#/components/schemas/Shared"}
+    props = {"z-bad": bad_piece, "a-shared": good_ref} if bad_first else {"a-shared": good_ref, "z-bad": bad_piece}
+    comps = {"Shared": SHARED, "Early": {"type": "object", "properties": props}, "Late": LATE if late_kind else LATE_LIST}
+    names = _perm(sorted(comps), order)
+    schemas = build_schemas(components={n: _s(comps[n]) for n in names}, schemas=Schemas(), config=CFG)
+    refs = schemas.classes_by_reference
+    if "/components/schemas/Shared" not in refs or "/components/schemas/Late" not in refs:
+        return False
+    if "/components/schemas/Early" in refs:
+        return False
+    late = refs["/components/schemas/Late"]
+    if late.class_info.name not in schemas.classes_by_name or not isinstance(late.optional_properties, list):
+        return False
+    blamed = "".join(e.detail or "" for e in schemas.errors)
+    return "schemas/Late" not in blamed and "schemas/Shared" not in blamed and len(schemas.errors) == 1
